@@ -59,6 +59,7 @@ var NextUnsynced bool
 // StubIndexer implements cache.Indexer just far enough for NewLister.
 type StubIndexer struct {
 	cache.Indexer
+	mu    sync.Mutex
 	Owner *StubInformer
 	// Items is the harness-owned "cache" content.
 	Items []*unstructured.Unstructured
@@ -209,9 +210,13 @@ func (s *StubInformer) Handler(i int) cache.ResourceEventHandler {
 	return s.Handlers[i]
 }
 
-func (s *StubInformer) GetStore() cache.Store           { return s.Indexer }
-func (s *StubInformer) GetIndexer() cache.Indexer       { return s.Indexer }
-func (s *StubInformer) HasSynced() bool                 { return !s.Unsynced }
+func (s *StubInformer) GetStore() cache.Store     { return s.Indexer }
+func (s *StubInformer) GetIndexer() cache.Indexer { return s.Indexer }
+func (s *StubInformer) HasSynced() bool {
+	s.mu.Lock()
+	defer s.mu.Unlock()
+	return !s.Unsynced
+}
 func (s *StubInformer) LastSyncResourceVersion() string { return "" }
 func (s *StubInformer) IsStopped() bool                 { return s.Stopped() }
 func (s *StubInformer) AddIndexers(indexers cache.Indexers) error {
@@ -223,11 +228,29 @@ func (s *StubInformer) SetTransform(handler cache.TransformFunc) error          
 // ---- indexer: only List is meaningful ----
 
 func (x *StubIndexer) List() []interface{} {
-	out := make([]interface{}, 0, len(x.Items))
-	for _, o := range x.Items {
+	items := x.snapshot()
+	out := make([]interface{}, 0, len(items))
+	for _, o := range items {
 		out = append(out, o)
 	}
 	return out
+}
+
+func (x *StubIndexer) snapshot() []*unstructured.Unstructured {
+	x.mu.Lock()
+	defer x.mu.Unlock()
+	return append([]*unstructured.Unstructured(nil), x.Items...)
+}
+
+// CompleteList plays "the initial LIST arrives": the cache content appears and
+// the informer reports synced (safe to call while other goroutines read).
+func (s *StubInformer) CompleteList(items ...*unstructured.Unstructured) {
+	s.Indexer.mu.Lock()
+	s.Indexer.Items = append(s.Indexer.Items, items...)
+	s.Indexer.mu.Unlock()
+	s.mu.Lock()
+	s.Unsynced = false
+	s.mu.Unlock()
 }
 
 // ---- lister over the stub indexer's Items ----
@@ -255,7 +278,7 @@ func NewLister(indexer cache.Indexer, gvr schema.GroupVersionResource) dynamicli
 
 func (l *stubLister) List(selector labels.Selector) ([]*unstructured.Unstructured, error) {
 	var out []*unstructured.Unstructured
-	for _, o := range l.indexer.Items {
+	for _, o := range l.indexer.snapshot() {
 		if !l.all && o.GetNamespace() != l.ns {
 			continue
 		}
@@ -267,7 +290,7 @@ func (l *stubLister) List(selector labels.Selector) ([]*unstructured.Unstructure
 }
 
 func (l *stubLister) Get(name string) (*unstructured.Unstructured, error) {
-	for _, o := range l.indexer.Items {
+	for _, o := range l.indexer.snapshot() {
 		if (l.all && o.GetNamespace() == "" || !l.all && o.GetNamespace() == l.ns) && o.GetName() == name {
 			return o, nil
 		}
